@@ -1,0 +1,237 @@
+//go:build verif
+
+package bloomsearch
+
+// Verification hooks (build tag "verif" only). Thin exported wrappers around
+// package internals so an out-of-package harness can drive them; no engine
+// behaviour changes. With the tag off this file is not compiled.
+
+import (
+	"context"
+	"io"
+	"sort"
+
+	"github.com/tidwall/gjson"
+)
+
+// VerifEmission is one emission of the production path walker.
+type VerifEmission struct {
+	Path    string
+	IsLeaf  bool
+	HasText bool
+	Text    string
+}
+
+// VerifWalk enumerates a marshaled row with the production walker (pathWalker).
+func VerifWalk(rowBytes []byte, delimiter string) []VerifEmission {
+	var w pathWalker
+	var out []VerifEmission
+	w.walk(gjson.ParseBytes(rowBytes), delimiter, func(path []byte, v gjson.Result, isLeaf bool) bool {
+		e := VerifEmission{Path: string(path), IsLeaf: isLeaf}
+		if isLeaf {
+			e.Text, e.HasText = leafTokenInput(v)
+		}
+		out = append(out, e)
+		return true
+	})
+	return out
+}
+
+// VerifRefWalk enumerates a marshaled row with the reference walker (forEachPathValue).
+func VerifRefWalk(rowBytes []byte, delimiter string) []VerifEmission {
+	var out []VerifEmission
+	forEachPathValue(gjson.ParseBytes(rowBytes), delimiter, func(path string, v gjson.Result, isLeaf bool) {
+		e := VerifEmission{Path: path, IsLeaf: isLeaf}
+		if isLeaf {
+			e.Text, e.HasText = leafTokenInput(v)
+		}
+		out = append(out, e)
+	})
+	return out
+}
+
+func sortedKeys(m map[string]struct{}) []string {
+	out := make([]string, 0, len(m))
+	for k := range m {
+		out = append(out, k)
+	}
+	sort.Strings(out)
+	return out
+}
+
+// VerifIndexRow returns the sorted distinct bloom entries indexRow records for a row.
+func VerifIndexRow(rowBytes []byte, tokenizer ValueTokenizerFunc) (fields, tokens, fieldTokens []string) {
+	s := newBloomEntrySets()
+	s.indexRow(rowBytes, tokenizer)
+	return sortedKeys(s.fields), sortedKeys(s.tokens), sortedKeys(s.fieldTokens)
+}
+
+// VerifFastTokens is the zero-alloc tokenizer fast path (forEachWord + appendFoldedWord).
+func VerifFastTokens(text string) []string {
+	var out []string
+	var buf []byte
+	forEachWord(text, func(word string) bool {
+		buf = appendFoldedWord(buf[:0], word)
+		out = append(out, string(buf))
+		return true
+	})
+	return out
+}
+
+// VerifMatchRow evaluates a row against a query with the compiled single-walk matcher and
+// with the set-based reference. err is the regex compile error, if any.
+func VerifMatchRow(rowBytes []byte, bloomQuery *BloomQuery, regexQuery *RegexQuery, tokenizer ValueTokenizerFunc) (compiled, reference bool, err error) {
+	cq, err := compileRegexQuery(regexQuery)
+	if err != nil {
+		return false, false, err
+	}
+	rb := bloomQuery
+	if rb == nil {
+		rb = &BloomQuery{}
+	}
+	m := compileRowMatcher(rb, cq, ".", tokenizer)
+	compiled = m.matchRowBytes(rowBytes, newRowMatchScratch(m))
+	reference = testGJSONForQuery(gjson.ParseBytes(rowBytes), rb, cq, ".", tokenizer)
+	return compiled, reference, nil
+}
+
+// VerifMaterializeRow is materializeRow.
+func VerifMaterializeRow(rowBytes []byte) (map[string]any, error) { return materializeRow(rowBytes) }
+
+// VerifPruneQuery is the bloom query the engine evaluates filters with (row bloom query ANDed
+// with the regex field guard).
+func VerifPruneQuery(q *Query) *BloomQuery {
+	rb := q.Bloom
+	if rb == nil {
+		rb = &BloomQuery{}
+	}
+	return AndBloomQueries(rb, RegexFieldGuardBloomQuery(q.Regex))
+}
+
+// VerifEvalFilters is evaluateBloomFilters over a BloomFilters value.
+func (b *BloomSearchEngine) VerifEvalFilters(f *BloomFilters, q *BloomQuery) bool {
+	return b.evaluateBloomFilters(f.FieldBloomFilter, f.TokenBloomFilter, f.FieldTokenBloomFilter, q)
+}
+
+// VerifValidate is FileMetadata.validate.
+func VerifValidate(m *FileMetadata, dataLimit int64) error { return m.validate(dataLimit) }
+
+// VerifValidateFilterSection is DataBlockMetadata.validateFilterSection.
+func VerifValidateFilterSection(b *DataBlockMetadata, regionOffset, regionEnd int64) error {
+	return b.validateFilterSection(regionOffset, regionEnd)
+}
+
+// VerifPlanBlockFilterReads is planBlockFilterReads.
+func VerifPlanBlockFilterReads(blocks []DataBlockMetadata, regionOffset, regionSize int) (int64, int64, bool, error) {
+	return planBlockFilterReads(blocks, regionOffset, regionSize)
+}
+
+// VerifEncodeFilterSection / VerifParseFilterSection expose the filter section codec.
+func VerifEncodeFilterSection(f *BloomFilters) ([]byte, error) { return encodeFilterSection(f) }
+func VerifParseFilterSection(b []byte) (*BloomFilters, error)  { return parseFilterSection(b) }
+
+// VerifChunkPlan runs a blockFilterCursor over blocks against file and reports, per block, the
+// (chunkStart, chunkLen) it was served from, or an error string.
+func VerifChunkPlan(file io.ReadSeeker, blocks []DataBlockMetadata, regionOffset, regionSize int) (starts []int64, lens []int, errs []string) {
+	rs, re, _, err := planBlockFilterReads(blocks, regionOffset, regionSize)
+	if err != nil {
+		return nil, nil, []string{err.Error()}
+	}
+	c := blockFilterCursor{file: file, blocks: blocks, regionStart: rs, regionEnd: re}
+	defer c.release()
+	for i := range blocks {
+		_, _, _, err := c.filtersFor(i)
+		if err != nil {
+			errs = append(errs, err.Error())
+		} else {
+			errs = append(errs, "")
+		}
+		starts = append(starts, c.chunkStart)
+		lens = append(lens, len(c.buf))
+	}
+	return
+}
+
+// VerifMergeFile describes one merge candidate file group member.
+type VerifMergeFile struct {
+	Pointer  []byte
+	Metadata FileMetadata
+}
+
+// VerifFileMergeGroups runs identifyFileMergeGroups on the given files and returns the groups
+// as lists of pointers, plus the post-sort candidate order it worked from.
+func (b *BloomSearchEngine) VerifFileMergeGroups(files []MaybeFile) (groups [][][]byte) {
+	var cands []fileMergeCandidate
+	for _, f := range files {
+		cands = append(cands, fileMergeCandidate{filePointer: f.PointerBytes, metadata: f.Metadata, statistics: b.calculateFileStatistics(f.Metadata)})
+	}
+	for _, g := range b.identifyFileMergeGroups(cands) {
+		var ptrs [][]byte
+		for _, c := range g {
+			ptrs = append(ptrs, c.filePointer)
+		}
+		groups = append(groups, ptrs)
+	}
+	return groups
+}
+
+// VerifBlockMergeKey is blockMergeKey.
+func VerifBlockMergeKey(b *DataBlockMetadata) string { return blockMergeKey(b) }
+
+// VerifSetDrawFileName overrides the file-name draw of a FileSystemDataStore (forces collisions).
+func VerifSetDrawFileName(fs *FileSystemDataStore, draw func() string) { fs.drawFileName = draw }
+
+// VerifHandlePool wraps the per-query file handle pool for sequential driving.
+type VerifHandlePool struct{ p *fileHandlePool }
+
+func VerifNewHandlePool(store DataStore) *VerifHandlePool {
+	return &VerifHandlePool{p: newFileHandlePool(store)}
+}
+func (h *VerifHandlePool) Retain(ptr []byte)  { h.p.retain(ptr) }
+func (h *VerifHandlePool) Release(ptr []byte) { h.p.release(ptr) }
+func (h *VerifHandlePool) Acquire(ctx context.Context, ptr []byte) (io.ReadSeekCloser, error) {
+	return h.p.acquire(ctx, ptr)
+}
+func (h *VerifHandlePool) Put(ptr []byte, f io.ReadSeekCloser) { h.p.put(ptr, f) }
+func (h *VerifHandlePool) Discard(f io.ReadSeekCloser)         { h.p.discard(f) }
+func (h *VerifHandlePool) CloseAll()                           { h.p.closeAll() }
+
+// VerifSlot wraps querySlot.
+type VerifSlot struct{ s querySlot }
+
+func (b *BloomSearchEngine) VerifNewSlot(ctx context.Context) *VerifSlot {
+	return &VerifSlot{s: querySlot{sem: b.querySemaphore, ctx: ctx}}
+}
+func (s *VerifSlot) Acquire() bool { return s.s.acquire() }
+func (s *VerifSlot) Release()      { s.s.release() }
+func (s *VerifSlot) Held() bool    { return s.s.held }
+
+// VerifSemaphoreInUse reports how many query-semaphore slots are currently taken.
+func (b *BloomSearchEngine) VerifSemaphoreInUse() int { return len(b.querySemaphore) }
+
+// VerifBatcher wraps rowBatcher over a fresh Results cursor.
+type VerifBatcher struct {
+	R *Results
+	b rowBatcher
+}
+
+func (b *BloomSearchEngine) VerifNewBatcher(ctx context.Context) *VerifBatcher {
+	r := newResults(ctx)
+	slot := &querySlot{sem: b.querySemaphore, ctx: r.ctx}
+	return &VerifBatcher{R: r, b: rowBatcher{results: r, slot: slot}}
+}
+func (v *VerifBatcher) Add(row map[string]any) error { return v.b.add(row) }
+func (v *VerifBatcher) Flush() error                 { return v.b.flush() }
+func (v *VerifBatcher) Done()                        { v.b.slot.release(); v.R.markWorkersDone() }
+
+// VerifConstants exposes the package constants the model mirrors.
+func VerifConstants() map[string]int {
+	return map[string]int{
+		"queryRowBatchSize":      queryRowBatchSize,
+		"queryRowBatchBuffer":    queryRowBatchBuffer,
+		"queryJobBuffer":         queryJobBuffer,
+		"queryFileJobBuffer":     queryFileJobBuffer,
+		"blockFilterChunkTarget": blockFilterChunkTarget,
+		"LengthPrefixSize":       LengthPrefixSize,
+	}
+}
